@@ -35,9 +35,15 @@ type c06oCase struct {
 	// Prev: the session under test follows an earlier session of the same neighbour in which the peer
 	// DID announce the 4-octet capability (state of a previous session must not leak)
 	Prev bool `json:"prev"`
+	// AP: instead of a 2-octet-AS session, a 4-octet session on which the daemon RECEIVES ADD-PATH path identifiers
+	// for IPv6 unicast; the route under test is an IPv6 route (MP_REACH_NLRI) with path identifier 7
+	AP bool `json:"ap,omitempty"`
 }
 
 func (c c06oCase) String() string {
+	if c.AP {
+		return fmt.Sprintf("ADD-PATH (IPv6, path id 7) %s peer, revised=%v, fault=%s", c06lib.PeerType(c.Peer), c.Revised, c.Fault)
+	}
 	return fmt.Sprintf("2-octet-AS %s peer, revised=%v, fault=%s, after-4-octet-session=%v", c06lib.PeerType(c.Peer), c.Revised, c.Fault, c.Prev)
 }
 
@@ -66,7 +72,9 @@ const (
 	c06oQ = "10.77.2.0/24" // named by the UPDATE under test (also announced well-formed first)
 )
 
-func c06oAttr(flags, typ byte, val []byte) []byte { return append([]byte{flags, typ, byte(len(val))}, val...) }
+func c06oAttr(flags, typ byte, val []byte) []byte {
+	return append([]byte{flags, typ, byte(len(val))}, val...)
+}
 
 // c06oUpdate writes an UPDATE for one IPv4 prefix with a 2-octet AS_PATH by hand.
 func c06oUpdate(pt c06lib.PeerType, prefix string, origin, confedSeg bool) []byte {
@@ -114,6 +122,52 @@ func c06oUpdate(pt c06lib.PeerType, prefix string, origin, confedSeg bool) []byt
 	return append(hdr, body...)
 }
 
+const c06oQ6 = "2001:db8:77::/48"
+
+// c06oUpdate6 writes an UPDATE announcing c06oQ6 with path identifier 7 inside MP_REACH_NLRI (4-octet AS_PATH).
+func c06oUpdate6(pt c06lib.PeerType, origin bool) []byte {
+	seg := func(t byte, as ...uint32) []byte {
+		b := []byte{t, byte(len(as))}
+		for _, a := range as {
+			b = binary.BigEndian.AppendUint32(b, a)
+		}
+		return b
+	}
+	var path []byte
+	switch pt {
+	case c06lib.EBGP:
+		path = seg(2, c06lib.EBGPPeerAS, 65010)
+	case c06lib.IBGP:
+		path = seg(2, 65010)
+	case c06lib.Confed:
+		path = append(seg(3, c06lib.ConfedMemberAS), seg(2, 65010)...)
+	}
+	var attrs []byte
+	if origin {
+		attrs = append(attrs, c06oAttr(0x40, 1, []byte{0})...)
+	}
+	attrs = append(attrs, c06oAttr(0x40, 2, path)...)
+	if pt != c06lib.EBGP {
+		attrs = append(attrs, c06oAttr(0x40, 5, []byte{0, 0, 0, 100})...)
+	}
+	nh := netip.MustParseAddr("2001:db8::1").As16()
+	mp := []byte{0, 2, 1, 16}
+	mp = append(mp, nh[:]...)
+	mp = append(mp, 0)
+	mp = append(mp, 0, 0, 0, 7, 48, 0x20, 0x01, 0x0d, 0xb8, 0x00, 0x77)
+	attrs = append(attrs, c06oAttr(0x80, 14, mp)...)
+	body := []byte{0, 0}
+	body = binary.BigEndian.AppendUint16(body, uint16(len(attrs)))
+	body = append(body, attrs...)
+	hdr := make([]byte, 19)
+	for i := 0; i < 16; i++ {
+		hdr[i] = 0xff
+	}
+	binary.BigEndian.PutUint16(hdr[16:18], uint16(19+len(body)))
+	hdr[18] = bgp.BGP_MSG_UPDATE
+	return append(hdr, body...)
+}
+
 func (sc *c06oScenario) Setup(w *simWorld) {
 	pt := c06lib.PeerType(sc.cs.Peer)
 	if pt == c06lib.Confed {
@@ -125,9 +179,18 @@ func (sc *c06oScenario) Setup(w *simWorld) {
 	w.start()
 	revised := sc.cs.Revised
 	spec := simBotSpec{Name: "p", IP: c06lib.BotIP, AS: c06lib.PeerAS(pt), RouterID: [4]byte{1, 1, 1, 1}, Families: []bgp.Family{bgp.RF_IPv4_UC},
-		No4Octet: !sc.cs.Prev,
+		No4Octet: !sc.cs.Prev && !sc.cs.AP,
 		// AddPeer forces treat-as-withdraw on; only a configuration file can switch it off
 		FileOnly: func(n *oc.Neighbor) { n.ErrorHandling.Config.TreatAsWithdraw = revised }}
+	if sc.cs.AP {
+		spec.Families = []bgp.Family{bgp.RF_IPv4_UC, bgp.RF_IPv6_UC}
+		spec.AddPath = map[bgp.Family]bgp.BGPAddPathMode{bgp.RF_IPv6_UC: bgp.BGP_ADD_PATH_SEND}
+		spec.Neighbor = func(n *oc.Neighbor) {
+			for j := range n.AfiSafis {
+				n.AfiSafis[j].AddPaths.Config.Receive = true
+			}
+		}
+	}
 	sc.bot = w.addBot(spec)
 	w.advance(time.Second)
 	if !sc.bot.handshake() {
@@ -146,6 +209,16 @@ func (sc *c06oScenario) Setup(w *simWorld) {
 		w.advance(time.Second)
 	}
 	p := w.peer(sc.bot)
+	if sc.cs.AP {
+		if !p.isAddPathReceiveEnabled(bgp.RF_IPv6_UC) {
+			panic("c06old setup: ADD-PATH receive was not negotiated for IPv6")
+		}
+		sc.bot.send(c06oUpdate6(pt, true))
+		w.settle()
+		w.advance(time.Second)
+		sc.seq = len(sc.bot.rxAll())
+		return
+	}
 	if !p.fsm.twoByteAsTrans {
 		panic("c06old setup: the session is not a 2-octet-AS session")
 	}
@@ -166,6 +239,10 @@ func (sc *c06oScenario) Apply(w *simWorld, e simEvent) {
 		sc.bot.send(c06oUpdate(pt, c06oQ, false, false))
 	case "confed-segment":
 		sc.bot.send(c06oUpdate(pt, c06oQ, true, true))
+	case "mp-addpath-ok":
+		sc.bot.send(c06oUpdate6(pt, true))
+	case "mp-addpath-missing-origin":
+		sc.bot.send(c06oUpdate6(pt, false))
 	default:
 		panic("c06old: unknown fault")
 	}
@@ -178,13 +255,20 @@ func (sc *c06oScenario) Check(w *simWorld, last *simEvent) {
 	p := w.peer(sc.bot)
 	cs := sc.cs
 	tag := fmt.Sprintf("peer=%s:revised=%v:after-4-octet-session=%v", pt, cs.Revised, cs.Prev)
+	if cs.AP {
+		tag = fmt.Sprintf("peer=%s:revised=%v:addpath-ipv6", pt, cs.Revised)
+	}
 	if last == nil {
 		// session parameters (white box) and the well-formed routes
 		if p.fsm.isTreatAsWithdraw != cs.Revised || p.fsm.isEBGP != (pt != c06lib.IBGP) || p.fsm.isConfed != (pt == c06lib.Confed) {
 			w.violate("C06:oldpeer:session-parameters:"+tag, "2-octet-AS session of a %s peer (revised error handling %v): the FSM validates its UPDATEs with treat-as-withdraw=%v ebgp=%v confed=%v",
 				pt, cs.Revised, p.fsm.isTreatAsWithdraw, p.fsm.isEBGP, p.fsm.isConfed)
 		}
-		if n := len(w.adjInDump(p)); n != 2 {
+		wantN := 2
+		if cs.AP {
+			wantN = 1
+		}
+		if n := len(w.adjInDump(p)); n != wantN {
 			w.violate("C06:oldpeer:well-formed-update-penalised:"+tag, "two well-formed UPDATEs of a 2-octet-AS %s peer: %d routes in the Adj-RIB-In (session %s)", pt, n, p.State())
 		}
 		return
@@ -192,6 +276,8 @@ func (sc *c06oScenario) Check(w *simWorld, last *simEvent) {
 	want := "installed"
 	code := ""
 	switch cs.Fault {
+	case "mp-addpath-missing-origin":
+		want, code = "reset", "NOTIF 3/3"
 	case "missing-origin":
 		want, code = "reset", "NOTIF 3/3"
 	case "confed-segment":
@@ -220,6 +306,10 @@ func (sc *c06oScenario) Check(w *simWorld, last *simEvent) {
 	switch {
 	case !up:
 		got = "reset"
+	case cs.AP && has[c06oQ6]:
+		got = "installed"
+	case cs.AP:
+		got = "taw"
 	case has[c06oQ] && has[c06oP]:
 		got = "installed"
 	case !has[c06oQ] && has[c06oP]:
@@ -244,7 +334,7 @@ func (sc *c06oScenario) Check(w *simWorld, last *simEvent) {
 func TestVerif_C06_OldPeer(t *testing.T) {
 	r := vr.Start(t, "C06", "oldpeer")
 	defer r.Finish()
-	r.Rule = "one synctest bubble per case: real daemon, a peer bot WITHOUT the 4-octet AS capability of each type {eBGP, iBGP, confederation member} x revised error handling {on, off} x {first session, after a session with the capability} x {well-formed, ORIGIN missing, AS_CONFED_SEQUENCE from a non-member}: session parameters used for validation (white box) and the reaction (installed / treat-as-withdraw / NOTIFICATION code+subcode); non-trivial = distinct case"
+	r.Rule = "one synctest bubble per case: real daemon, a peer bot WITHOUT the 4-octet AS capability of each type {eBGP, iBGP, confederation member} x revised error handling {on, off} x {first session, after a session with the capability} x {well-formed, ORIGIN missing, AS_CONFED_SEQUENCE from a non-member}, plus a 4-octet session on which the daemon receives ADD-PATH path identifiers for IPv6 x {well-formed re-announcement, ORIGIN missing} of an IPv6 route with path id 7 (treat-as-withdraw must remove that very path): session parameters used for validation (white box) and the reaction (installed / treat-as-withdraw / NOTIFICATION code+subcode); non-trivial = distinct case"
 	if r.ReplayPath() != "" {
 		var rp simReplay
 		if err := r.LoadReplay(&rp); err != nil {
@@ -263,6 +353,13 @@ func TestVerif_C06_OldPeer(t *testing.T) {
 					}
 					cases = append(cases, c06oCase{Peer: int(pt), Revised: rev, Fault: f, Prev: prev})
 				}
+			}
+		}
+	}
+	for _, pt := range c06lib.PeerTypes {
+		for _, rev := range []bool{true, false} {
+			for _, f := range []string{"mp-addpath-ok", "mp-addpath-missing-origin"} {
+				cases = append(cases, c06oCase{Peer: int(pt), Revised: rev, Fault: f, AP: true})
 			}
 		}
 	}
@@ -296,7 +393,7 @@ func TestVerif_C06_OldPeer(t *testing.T) {
 			r.Outcomes[k] += int64(n)
 		}
 	})
-	for _, k := range []string{"oldpeer fault=ok want=installed got=installed", "oldpeer fault=missing-origin want=taw got=taw", "oldpeer fault=missing-origin want=reset got=reset", "oldpeer fault=confed-segment want=taw got=taw"} {
+	for _, k := range []string{"oldpeer fault=mp-addpath-missing-origin want=taw got=taw", "oldpeer fault=ok want=installed got=installed", "oldpeer fault=missing-origin want=taw got=taw", "oldpeer fault=missing-origin want=reset got=reset", "oldpeer fault=confed-segment want=taw got=taw"} {
 		if r.Outcomes[k] == 0 && len(r.Violations) == 0 {
 			t.Fatalf("ENGINE-ERROR vacuous: outcome %q never seen: %v", k, r.Outcomes)
 		}
